@@ -386,7 +386,7 @@ func ckksTransformLeaf(c *engine.Chooser, name string, k cfg) {
 		Sig: sig, Key: name,
 		New: func() multiparty.RefreshShare { return mtp[0].AllocateShare(lsh, lout) },
 		Agg: func(a, b multiparty.RefreshShare, out *multiparty.RefreshShare) error {
-			fresh := out != &a && out.MetaData.Scale.Value.Sign() == 0
+			fresh := out.MetaData.Scale.Value.Sign() == 0 // zero-value metadata: a freshly allocated output
 			err := mtp[0].AggregateShares(&a, &b, out)
 			if fresh {
 				// isolated in scenario refresh-share-metadata/ckks: a freshly allocated output does not receive the metadata
@@ -405,7 +405,8 @@ func ckksTransformLeaf(c *engine.Chooser, name string, k cfg) {
 
 	// expected output polynomial at the sparse positions, as exact rationals scaled to the output scale D:
 	// x = what the function sees (in units of the input scale S), y = f(x), out = y * D/S (re-encoded if asked)
-	D, _ := new(big.Float).Set(&w.params.DefaultScale().Value).Int(nil)
+	ds := w.params.DefaultScale()
+	D, _ := new(big.Float).Set(&ds.Value).Int(nil)
 	S, _ := new(big.Float).Set(&w.ct.Scale.Value).Int(nil)
 	want := make([]*big.Int, w.dslots)
 	switch {
@@ -499,7 +500,7 @@ func ckksTransformLeaf(c *engine.Chooser, name string, k cfg) {
 			c.Fail(sig+"/finalize/wrong-level", "%s: output level %d, requested %d", mode, res.Level(), lout)
 			return
 		}
-		if ds := w.params.DefaultScale(); res.Scale.Cmp(ds) != 0 {
+		if res.Scale.Cmp(ds) != 0 {
 			c.Fail(sig+"/finalize/wrong-scale", "%s: output scale %v, documented: the default scale %v", mode, &res.Scale.Value, &ds.Value)
 			return
 		}
